@@ -3,6 +3,7 @@
 #include "seams.hpp"
 
 #include <climits>
+#include <sys/mman.h>
 
 namespace {
 
@@ -11,6 +12,10 @@ const std::vector<std::string> OPS = {
     "cbc", "n_cbc", "drain_cbc", "sts_some", "sts_atmost", "sts_n", "sts_drain",
     "some_aux", "atmost_aux", "n_aux", "drain_aux"};
 
+// Transfers of 2^31 octets and more (every N up to SSIZE_MAX is a valid count): a chunk-style driver over a reserved address range
+// that nobody ever touches. The endpoint layer only forwards pointers and counts to a chunk driver, so the driver can check that it
+// is offered exactly the next stretch of the caller's N octets each time without a single octet being stored.
+const std::vector<std::string> HUGE_OPS = {"put_huge", "get_huge", "put_atmost_huge", "get_atmost_huge"};
 static uint8_t put_pattern(size_t opi, size_t j) { return (uint8_t)(0x5a ^ stream_octet(opi * 977u + j * 3u + 1u)); }
 
 struct EpHarness : Harness {
@@ -18,7 +23,7 @@ struct EpHarness : Harness {
     std::vector<std::string> props() const override { return {"C17"}; }
     std::vector<std::string> probes(const std::string &) const override {
         return {"eintr_retried", "eagain_retried", "zero_return_retried", "partial_then_rest", "hard_error_after_prefix", "octet_driver_through_chunk_api",
-                "chunk_driver_through_octet_api", "aux_smaller_than_n_multiple_rounds", "drain_end_mid_chunk", "drain_to_end_of_stream", "invalid_count_refused"};
+                "chunk_driver_through_octet_api", "aux_smaller_than_n_multiple_rounds", "drain_end_mid_chunk", "drain_to_end_of_stream", "invalid_count_refused", "huge_transfer_in_one_call", "huge_transfer_in_pieces", "huge_piece_of_4gib_or_more"};
     }
     uint64_t runs(const std::string &, const Tier &t) const override { return t.thorough() ? 12000000 : 3000000; }
 
@@ -37,6 +42,7 @@ struct EpHarness : Harness {
         as.push("the getbuffer extension has no implementer in the repository; sts_some/atmost/n/drain are simulated on their documented fallback path only");
         as.push("plumbing may fail with a transient error (EINTR/EAGAIN) produced by a driver; then only 'error returned, sink holds a prefix' is demanded");
         as.push("auxiliary buffers always have a non-empty designated region [offset, used)");
+        as.push("transfers of 2^31 octets and more run through a chunk-style driver over a reserved, never-touched address range: pointers and counts are checked, no octet is stored; octet-style drivers and the plumbing are not run at that size");
         as.push("driver behaviour scripts are sampled, not enumerated (the 8^8 scripts per case of the property's quantifier are outside this technique)");
         d["assumptions"] = as;
         return d;
@@ -80,7 +86,18 @@ struct EpHarness : Harness {
         int64_t need = 0;
         for (int i = 0; i < nops; ++i) {
             Json o = Json::obj();
-            const std::string &k = r.pick(enabled);
+            std::string k = r.pick(enabled);
+            if (r.chance(1, 16)) {  // a transfer beyond 2^31 octets through a virtual chunk driver
+                static const int64_t NS[] = {(1ll << 31) - 1, 1ll << 31, (1ll << 31) + 1, (1ll << 32) - 1, 1ll << 32, (1ll << 32) + 3, 3ll << 30, 1ll << 33, (1ll << 34) + 5};
+                static const int64_t CAPS[] = {INT64_MAX, INT64_MAX, 1ll << 31, (1ll << 31) - 1, 1ll << 32, (1ll << 32) + 2, 1ll << 30, 1, 7, 0, -EINTR, -EAGAIN};
+                o["op"] = r.pick(HUGE_OPS);
+                o["n"] = (long long)(r.chance(1, 4) ? (int64_t)r.range(1ll << 31, 1ll << 34) : NS[r.below(9)]);
+                Json caps = Json::arr(); int nc = (int)r.below(5);
+                for (int j = 0; j < nc; ++j) caps.push((long long)(hard && r.chance(1, 8) ? -HARD_ERRORS[r.below(sizeof HARD_ERRORS / sizeof *HARD_ERRORS)] : CAPS[r.below(12)]));
+                o["caps"] = caps;
+                ops.push(o);
+                continue;
+            }
             o["op"] = k;
             int64_t n = r.chance(1, 3) ? r.range(1, 3) : r.range(1, maxn);
             bool chunky = k == "get_chunk" || k == "put_chunk";
@@ -175,6 +192,37 @@ struct EpHarness : Harness {
         bool finished = true;
         c.ops_done++;
         c.execs++;
+
+        if (op.size() > 5 && op.compare(op.size() - 5, 5, "_huge") == 0) {
+            c.ops_done--; c.execs--;
+            unsigned char *base = huge_base();
+            if (!base) return;  // no address space to reserve: nothing executed
+            c.ops_done++; c.execs++;
+            VirtualDrv D; D.c = &c; D.base = base;
+            uint64_t N = nraw < 1 ? 1 : (uint64_t)nraw; if (N > ((uint64_t)1 << 35) - 4096) N = ((uint64_t)1 << 35) - 4096;
+            D.total = N;
+            const Json &cj = o.get("caps");
+            for (size_t i = 0; i < cj.size() && i < 16; ++i) D.caps.push_back(cj.ati(i, INT64_MAX));
+            const bool put = op.compare(0, 3, "put") == 0, atmost = op.find("atmost") != std::string::npos;
+            Source vs; Sink vk; chunk_source_init(&vs, VirtualDrv::source_cb, &D); chunk_sink_init(&vk, VirtualDrv::sink_cb, &D);
+            finished = WITH_BUDGET(c, D.caps.size() + 16, rc = put ? (atmost ? sink_put_chunk_atmost(&vk, base, N) : sink_put_chunk(&vk, base, N))
+                                                                    : (atmost ? source_get_chunk_atmost(&vs, base, N) : source_get_chunk(&vs, base, N)));
+            c.ev(EV_API, 9, (uint64_t)rc, D.moved);
+            if (!finished) { R.fail("noprogress", "no return within %zu driver calls after the script ended (N=%llu, %llu moved)", D.caps.size() + 16, (unsigned long long)N, (unsigned long long)D.moved); return; }
+            if (D.bad_ptr) R.fail("order", "a driver call was not offered the next stretch of the caller's %llu octets (loss, duplication or reordering)", (unsigned long long)N);
+            if (D.bad_n) R.fail("overrun", "a driver call was asked for nothing or for more than remains of the caller's %llu octets", (unsigned long long)N);
+            int64_t hard = Run::first_hard(D.errors);
+            if (!atmost) {
+                if (hard) { if (rc != hard) R.fail("harderror", "driver failed with %lld but the call returned %zd", (long long)hard, rc); }
+                else if (rc != (ssize_t)N || D.moved != N) R.fail("result", "asked to move %llu octets, no hard driver error, returned %zd with %llu moved", (unsigned long long)N, rc, (unsigned long long)D.moved);
+                else { COUNT(D.calls == 1 ? "probe.huge_transfer_in_one_call" : "probe.huge_transfer_in_pieces"); }
+            } else {
+                if (rc < 0) { bool seen = false; for (auto e : D.errors) if (e == rc) seen = true; if (!seen) R.fail("errorsource", "returned %zd which no driver produced", rc); }
+                else if ((uint64_t)rc != D.moved || (uint64_t)rc > N) R.fail("count", "returned %zd but %llu octets were moved (asked for at most %llu)", rc, (unsigned long long)D.moved, (unsigned long long)N);
+            }
+            if (D.maxpiece >= ((uint64_t)1 << 32)) COUNT("probe.huge_piece_of_4gib_or_more");
+            return;
+        }
 
         if (op == "get_chunk" || op == "get_atmost") {
             bool atmost = op == "get_atmost";
